@@ -51,6 +51,18 @@ def package_of(harness):
     return 'sfs-cli' if harness.startswith('k_cli_') else 'sfs-core'
 
 
+def _refresh_bin_crate():
+    """cargo does not re-link the uplifted `debug/sfs` pointer when the sfs-cli unit of *this* source path is fresh, so
+    after a build of another copy of the repository in the same target directory (scratch copies of the seed / self
+    tests) Kani would read the other copy's goto binary.  Forgetting the fingerprint of sfs-cli forces a rebuild of
+    that one crate (about 10 s) and a fresh pointer."""
+    import glob
+    import shutil
+    for d in (glob.glob(os.path.join(TARGET, 'kani', '*', 'debug', '.fingerprint', 'sfs-cli-*'))
+              + glob.glob(os.path.join(TARGET, 'kani', '*', 'debug', 'build', 'sfs-cli'))):
+        shutil.rmtree(d, ignore_errors=True)
+
+
 def harness_modules():
     return sorted(os.path.splitext(f)[0] for f in os.listdir(INCRATE)
                   if f.endswith('.rs') and f not in ('mod.rs', 'util.rs'))
@@ -111,6 +123,8 @@ def _run_chunk(names, repo='/repo', jobs=8, harness_timeout=600, total_timeout=7
     out_json = os.path.join(BUILD, 'kani-result-%d.json' % os.getpid())
     if os.path.exists(out_json):
         os.remove(out_json)
+    if pkg == 'sfs-cli':
+        _refresh_bin_crate()
     cmd = ['cargo', 'kani', '-p', pkg, '--target-dir', TARGET,
            '-Z', 'unstable-options', '-Z', 'function-contracts', '-Z', 'stubbing',
            '--export-json', out_json, '--harness-timeout', f'{harness_timeout}s',
@@ -307,6 +321,8 @@ def run_harnesses(names, repo='/repo', jobs=6, harness_timeout=600, total_timeou
 def counterexample(harness, repo='/repo', harness_timeout=900):
     """re-run one failing harness with concrete playback; returns list of generated
     unit tests (text) for failed assertions (not covers)."""
+    if package_of(harness) == 'sfs-cli':
+        _refresh_bin_crate()
     cmd = ['cargo', 'kani', '-p', package_of(harness), '--target-dir', TARGET,
            '-Z', 'unstable-options', '-Z', 'function-contracts', '-Z', 'stubbing', '-Z', 'concrete-playback',
            '--concrete-playback=print', '--harness-timeout', f'{harness_timeout}s',
